@@ -385,6 +385,15 @@ def check(prop, tier, repo, seed):
         "assumptions": sorted(assumptions) + [cfg["level_note"]],
         "wall_s": round(wall, 2), "violations": len(violations),
     }
+    # generated files of this run: kept only when something was reported (the replay file points into them); stale ones are pruned
+    import shutil
+    rundir = os.path.join(BUILD, "run_%d" % os.getpid())
+    if rc == 0:
+        shutil.rmtree(rundir, ignore_errors=True)
+    for d in os.listdir(BUILD):
+        full = os.path.join(BUILD, d)
+        if d.startswith("run_") and full != rundir and os.path.isdir(full) and time.time() - os.path.getmtime(full) > 6 * 3600:
+            shutil.rmtree(full, ignore_errors=True)
     # evidence describes /repo; a run against another tree (seeded change, selftest) leaves it alone
     evdir = EVID if os.path.abspath(repo) == "/repo" else os.path.join(BUILD, "evidence_other")
     os.makedirs(evdir, exist_ok=True)
